@@ -3,6 +3,7 @@
 (*  gen:     n,t,k,v, announced, drained, table (distinct views), yielded (seq of seq of view ids), *)
 (*           again (second identical generator yields the same), lp (order from a 1-view generator) *)
 (*  shuffle: yielded, yielded2 (same seed), unshuffled, drained                                 *)
+(*  shared:  yielded (by 2-8 workers pulling from one generator concurrently), unshuffled, drained *)
 (*  json:    before, after (sequences of [leader, parts])                                      *)
 (*  verdict: logs, safe, commits                                                               *)
 EXTENDS Twins, Json, TLC
@@ -25,6 +26,9 @@ PropertyOK == l > 0 =>
            /\ Cur.yielded = Cur.yielded2                            \* same seed, same order
            /\ NoRepetition(Cur.yielded)
            /\ Cur.drained => ToSet(Cur.yielded) = ToSet(Cur.unshuffled) /\ Len(Cur.yielded) = Len(Cur.unshuffled)
+      [] Cur.kind = "shared" ->                                      \* several workers pulling from one generator at the same time
+           /\ NoRepetition(Cur.yielded)
+           /\ Cur.drained /\ ToSet(Cur.yielded) = ToSet(Cur.unshuffled) /\ Len(Cur.yielded) = Len(Cur.unshuffled)
       [] Cur.kind = "json" -> Cur.before = Cur.after
       [] Cur.kind = "panic" -> FALSE                                 \* the generator must not panic on valid settings
       [] Cur.kind = "verdict" ->
